@@ -573,4 +573,120 @@ theorem qinv_run (p0 : List (List Job)) (acts : List QAct) :
     | produce i => exact qinv_produce p0 q i h
     | pump => exact qinv_pump p0 q h
 
+
+/-! ### the pump alone drains the queue -/
+
+def pumps (k : Nat) : List QAct := List.replicate k .pump
+
+theorem qrun_append (q : QS) (a b : List QAct) : qrun q (a ++ b) = qrun (qrun q a) b := by
+  induction a generalizing q with
+  | nil => rfl
+  | cons x xs ih => exact ih _
+
+theorem pumps_succ (q : QS) (k : Nat) : qrun q (pumps (k + 1)) = qrun (pumpStep q) (pumps k) := rfl
+
+theorem pumps_add (q : QS) (a b : Nat) : qrun q (pumps (a + b)) = qrun (qrun q (pumps a)) (pumps b) := by
+  induction a generalizing q with
+  | zero => rw [Nat.zero_add]; rfl
+  | succ a ih => rw [show a + 1 + b = (a + b) + 1 by omega, pumps_succ, pumps_succ, ih]
+
+/-- an idle pump (empty queue, not about to pop) stays idle: it only cycles check → check → sleep -/
+theorem pump_idle_stays (k : Nat) : ∀ q : QS, q.raised = false → q.queue = [] → q.pc ≠ .pop →
+    (qrun q (pumps k)).queue = [] ∧ (qrun q (pumps k)).raised = false ∧
+    (qrun q (pumps k)).sent = q.sent ∧ (qrun q (pumps k)).appended = q.appended := by
+  induction k with
+  | zero => intro q hr he _; exact ⟨he, hr, rfl, rfl⟩
+  | succ k ih =>
+    intro q hr he hp
+    rw [pumps_succ]
+    have key : (pumpStep q).raised = false ∧ (pumpStep q).queue = [] ∧ (pumpStep q).pc ≠ .pop ∧
+        (pumpStep q).sent = q.sent ∧ (pumpStep q).appended = q.appended := by
+      unfold pumpStep
+      rw [hr]
+      cases hpc : q.pc with
+      | pop => exact absurd hpc hp
+      | c1 => simp [he]
+      | c2 => simp [he]
+      | slp => simp [he]
+    obtain ⟨h1, h2, h3, h4, h5⟩ := key
+    have := ih (pumpStep q) h1 h2 h3
+    rw [h4, h5] at this
+    exact this
+
+/-- from any state the pump can be in, at most three of its steps per queued job empty the queue -/
+theorem pump_drains_aux (n : Nat) : ∀ q : QS, q.raised = false → (q.pc = .pop → q.queue ≠ []) →
+    q.queue.length = n →
+    ∃ k, k ≤ 3 * n ∧ (qrun q (pumps k)).queue = [] ∧ (qrun q (pumps k)).raised = false ∧
+      (qrun q (pumps k)).pc ≠ .pop ∧ (qrun q (pumps k)).sent = q.sent ++ q.queue ∧
+      (qrun q (pumps k)).appended = q.appended := by
+  induction n with
+  | zero =>
+    intro q hr hp hl
+    have he : q.queue = [] := List.eq_nil_of_length_eq_zero hl
+    refine ⟨0, Nat.le_refl _, he, hr, ?_, ?_, rfl⟩
+    · intro h; exact hp h he
+    · show q.sent = q.sent ++ q.queue
+      rw [he, List.append_nil]
+  | succ n ih =>
+    intro q hr hp hl
+    cases hq : q.queue with
+    | nil => rw [hq] at hl; cases hl
+    | cons j rest =>
+      have hrest : rest.length = n := by rw [hq] at hl; simpa using hl
+      -- the state right after the pop of `j`
+      let q' : QS := { q with queue := rest, sent := q.sent ++ [j], pc := .c2 }
+      have hq' : ∃ k', k' ≤ 3 * n ∧ (qrun q' (pumps k')).queue = [] ∧ (qrun q' (pumps k')).raised = false ∧
+          (qrun q' (pumps k')).pc ≠ .pop ∧ (qrun q' (pumps k')).sent = q.sent ++ (j :: rest) ∧
+          (qrun q' (pumps k')).appended = q.appended := by
+        obtain ⟨k', hk', h1, h2, h3, h4, h5⟩ := ih q' hr (by intro h; cases h) hrest
+        refine ⟨k', hk', h1, h2, h3, ?_, h5⟩
+        rw [h4]; show (q.sent ++ [j]) ++ rest = _
+        simp
+      obtain ⟨k', hk', h1, h2, h3, h4, h5⟩ := hq'
+      have pop_step : ∀ q0 : QS, q0.raised = false → q0.pc = .pop → q0.queue = j :: rest →
+          q0.sent = q.sent → q0.appended = q.appended → q0.prod = q.prod → pumpStep q0 = q' := by
+        intro q0 h0 hpc h0q hs ha hpr
+        unfold pumpStep popStep
+        rw [h0, hpc, h0q]
+        cases q0; cases q; simp_all [q']
+      have c1_step : ∀ q0 : QS, q0.raised = false → q0.pc = .c1 → q0.queue = j :: rest →
+          q0.sent = q.sent → q0.appended = q.appended → q0.prod = q.prod →
+          pumpStep (pumpStep q0) = q' := by
+        intro q0 h0 hpc h0q hs ha hpr
+        have : pumpStep q0 = { q0 with pc := .pop } := by
+          unfold pumpStep; rw [h0, hpc, h0q]; rfl
+        rw [this]
+        exact pop_step _ h0 rfl h0q hs ha hpr
+      cases hpc : q.pc with
+      | pop =>
+        refine ⟨k' + 1, by omega, ?_⟩
+        rw [pumps_succ, pop_step q hr hpc hq rfl rfl rfl]
+        exact ⟨h1, h2, h3, h4, h5⟩
+      | c1 =>
+        refine ⟨k' + 1 + 1, by omega, ?_⟩
+        rw [pumps_succ, pumps_succ, c1_step q hr hpc hq rfl rfl rfl]
+        exact ⟨h1, h2, h3, h4, h5⟩
+      | c2 =>
+        have : pumpStep q = { q with pc := .c1 } := by
+          unfold pumpStep; rw [hr, hpc, hq]; rfl
+        refine ⟨k' + 1 + 1 + 1, by omega, ?_⟩
+        rw [pumps_succ, this, pumps_succ, pumps_succ, c1_step { q with pc := .c1 } hr rfl hq rfl rfl rfl]
+        exact ⟨h1, h2, h3, h4, h5⟩
+      | slp =>
+        have : pumpStep q = { q with pc := .c1 } := by
+          unfold pumpStep; simp [hr, hpc]
+        refine ⟨k' + 1 + 1 + 1, by omega, ?_⟩
+        rw [pumps_succ, this, pumps_succ, pumps_succ, c1_step { q with pc := .c1 } hr rfl hq rfl rfl rfl]
+        exact ⟨h1, h2, h3, h4, h5⟩
+
+theorem pump_drains (q : QS) (hr : q.raised = false) (hp : q.pc = .pop → q.queue ≠ []) (k : Nat)
+    (hk : 3 * q.queue.length ≤ k) :
+    (qrun q (pumps k)).queue = [] ∧ (qrun q (pumps k)).raised = false ∧
+    (qrun q (pumps k)).sent = q.sent ++ q.queue ∧ (qrun q (pumps k)).appended = q.appended := by
+  obtain ⟨k0, hk0, h1, h2, h3, h4, h5⟩ := pump_drains_aux q.queue.length q hr hp rfl
+  have : k = k0 + (k - k0) := by omega
+  rw [this, pumps_add]
+  obtain ⟨i1, i2, i3, i4⟩ := pump_idle_stays (k - k0) (qrun q (pumps k0)) h2 h1 h3
+  exact ⟨i1, i2, by rw [i3, h4], by rw [i4, h5]⟩
+
 end MySensors.Tr
